@@ -363,6 +363,9 @@ def enumerate_cases(tier, seed):
     cases += s3.omit_h_cases("PARSE", names=["ALA", "GLY", "SER", "LYS",
                                              "PRO", "HIS", "THR"],
                              opts=("nodebump", "nodebump_noopt"))
+    # sibling hydrogens of which one is given, records in both orders
+    cases += s3.keep_one_h_cases("PARSE", names=None if tier != "quick"
+                                 else ["ALA", "GLY", "LYS", "ASN", "PRO"])
     cases += s3.neutral_cases()
     cases += s3.multi_clash_cases("AMBER", all_pairs=(tier != "quick"))
     cases += s3.gap_cases("AMBER", ("default", "noopt"))
@@ -381,6 +384,13 @@ def enumerate_cases(tier, seed):
     cases += s3.alias_cases()
     cases += s3.altloc_cases("AMBER")
     cases += s3.water_h_cases("AMBER")
+    # waters that come with both hydrogens: isolated pairs on the direction
+    # lattice (donor / acceptor / neither), thorough: also next to every
+    # polar atom and in rows of two
+    cases += s3.water_pair_cases("AMBER")
+    if tier != "quick":
+        cases += s3.water_with_h_cases("AMBER")
+        cases += s3.water_chain_cases("AMBER")
     for seq, naming in ((["DA", "DT", "DG", "DC"], "legacy"),
                         (["RA", "RU", "RG", "RC"], "modern"),
                         (["DT", "DC"], "star"), (["RG", "RU"], "short")):
